@@ -318,10 +318,39 @@ def run_whole(case):
 
   stale = []
 
+  # What the state looked like when it last notified its watchers (recorded by
+  # a wrapper around TestState.notify_update for this run's state object).  At
+  # a quiescent point - the run's only writer is parked here - it must be what
+  # the state looks like now: a change after the last notification is a change
+  # no watcher will be told about until something else happens.
+  def view_of(ts):
+    ps = ts.running_phase_state
+    return (ts._status.name, ps.name if ps is not None else None,  # pylint: disable=protected-access
+            len(ts.test_record.phases))
+
+  real_notify = ts_mod.TestState.notify_update
+
+  def notify_and_note(self):
+    try:
+      self._vf_last_view = view_of(self)  # pylint: disable=protected-access
+    except Exception:  # pylint: disable=broad-except
+      pass
+    return real_notify(self)
+
+  ts_mod.TestState.notify_update = notify_and_note
+  unnotified = []
+
   def wait_all(name, timeout=60.0):
     # The phase thread made the change itself and is the only writer: a fresh
     # snapshot taken here, at quiescence, must show it.
     ts = t.state
+    last = getattr(ts, '_vf_last_view', None)
+    if last is not None:
+      c['quiescent_views_compared'] = c.get('quiescent_views_compared', 0) + 1
+      now = view_of(ts)
+      if now != last and len(unnotified) < 3:
+        unnotified.append({'at': name, 'view_at_last_notification': list(last),
+                           'view_now': list(now)})
     fresh = None
     for _ in range(3):
       try:
@@ -487,6 +516,7 @@ def run_whole(case):
     if pw:
       pw.join(30)
   finally:
+    ts_mod.TestState.notify_update = real_notify
     htf_logger.setLevel(old_level)
     if eng is not None:
       eng.enabled = False
@@ -496,6 +526,12 @@ def run_whole(case):
   if case['scenario'] == 'prompt':
     for ev in seen['all_finished']:
       ev.set()
+  for u in unnotified:
+    fields = [f for f, a, b in zip(('status', 'running_phase', 'phase_records'),
+                                   u['view_at_last_notification'], u['view_now'])
+              if a != b]
+    viol.append({'mechanism': 'run:state-changed-after-last-notification:' +
+                              '+'.join(fields), 'detail': dict(ctx, **u)})
   for w in watchers:
     c['watcher_snapshots'] += w.snapshots
     c['watcher_verdicts'] += 1
